@@ -315,7 +315,9 @@ func slotKey(tag string, i int) ecommon.Hash {
 	return crypto.Keccak256Hash([]byte("slot"), []byte(tag), []byte{byte(i), byte(i >> 8)})
 }
 
-func runC23(ctx *ev.Ctx, c c23Case) {
+func runC23(ctx *ev.Ctx, c c23Case) { runC23With(ctx, c, nil) }
+
+func runC23With(ctx *ev.Ctx, c c23Case, hook txHook) {
 	fam := familyOf(c.Router)
 	if fam == nil {
 		panic("harness: unknown router " + c.Router)
@@ -384,6 +386,7 @@ func runC23(ctx *ev.Ctx, c c23Case) {
 		return states["pre"].root
 	}
 	e := newEnv(fam.ad, 2000+fam.ad.router, 97, 1, c.Btw, ccmc[:], 64)
+	e.hook = hook
 	defer e.w.Store.Close() // releases the store's background goroutines and buffers
 	if err := registerChain(e.w, destChainID, utils.ETH_ROUTER, 1, crypto.Keccak256([]byte("dest-ccmc"))[:20], nil, "dest"); err != nil {
 		panic("harness: " + err.Error())
@@ -672,7 +675,7 @@ func runC23(ctx *ev.Ctx, c c23Case) {
 		sink := common.NewZeroCopySink(nil)
 		ep.Serialization(sink)
 		before := e.w.DumpHash()
-		res := e.w.Invoke(utils.CrossChainManagerContractAddress, ccom.IMPORT_OUTER_TRANSFER_NAME, sink.Bytes(), []common.Address{world.Acct(41).Address})
+		res := e.exec(e.w.MakeTx(utils.CrossChainManagerContractAddress, ccom.IMPORT_OUTER_TRANSFER_NAME, sink.Bytes(), []common.Address{world.Acct(41).Address}))
 		e.w.NextBlock()
 		cls := fmt.Sprintf("%s/%s/%s", im.Height, ws.name, label)
 		if res.Panic != "" {
@@ -720,6 +723,9 @@ func runC23(ctx *ev.Ctx, c c23Case) {
 				mutatedWellFormed = true
 			}
 		}
+	}
+	if hook != nil {
+		return
 	}
 	if boundary || mutatedWellFormed {
 		ctx.NonTrivial()
